@@ -97,13 +97,14 @@ static void explore(Result& R) {
     g_R = &R;
     std::filesystem::create_directories(sw::scratch_root()); g_path = sw::scratch_root() + "/params.xml"; long cases = 0, rejected = 0;
     // 1. values, order, INF
-    for (int nc = 1; nc <= 3; nc++) for (int nf = 1; nf <= 3; nf++) for (int notation = 0; notation < 3; notation++) for (int inf = -1; inf < 3; inf++) for (int order = 0; order < 6; order++) {
+    const int NCMAX = R.args.thorough() ? 5 : 3, NFMAX = R.args.thorough() ? 5 : 3;
+    for (int nc = 1; nc <= NCMAX; nc++) for (int nf = 1; nf <= NFMAX; nf++) for (int notation = 0; notation < 3; notation++) for (int inf = -1; inf < 3; inf++) for (int order = 0; order < 6; order++) {
         Doc d = make_doc(nc, nf, notation, inf); std::string xml = to_xml(d, order); ReadOut r = read_doc(xml); cases++; std::string e = compare(d, r);
         if (e.empty() && order == 0 && notation != 2) { e = check_wiring(d, r); if (e.rfind("INTERNAL", 0) == 0) { R.internal_error = e; return; } }
         if (!e.empty()) R.violation(clause_of(e), "cell types " + std::to_string(nc) + ", face types " + std::to_string(nf) + ", notation " + std::to_string(notation) + ", INF variant " + std::to_string(inf) + ", tag order " + std::to_string(order) + ": " + e, "mode=values\nnc=" + std::to_string(nc) + "\nnf=" + std::to_string(nf) + "\nnotation=" + std::to_string(notation) + "\ninf=" + std::to_string(inf) + "\norder=" + std::to_string(order) + "\n");
         if (cases % 150 == 1) R.sample("{\"cell_types\":" + std::to_string(nc) + ",\"face_types\":" + std::to_string(nf) + ",\"notation\":" + std::to_string(notation) + ",\"tag_order\":" + std::to_string(order) + ",\"xml_bytes\":" + std::to_string(xml.size()) + "}"); }
     // 2. every single omitted tag
-    for (int nc = 1; nc <= 2; nc++) for (int nf = 1; nf <= 2; nf++) { Doc base = make_doc(nc, nf, 0, -1);
+    for (int nc = 1; nc <= (R.args.thorough() ? 3 : 2); nc++) for (int nf = 1; nf <= (R.args.thorough() ? 3 : 2); nf++) { Doc base = make_doc(nc, nf, 0, -1);
         auto expect_reject = [&](const Doc& d, const std::string& what) { ReadOut r = read_doc(to_xml(d, 0)); cases++; if (r.threw && r.right_type) { rejected++; return; }
             std::string e = r.threw ? ("omitted-tag-raises-the-wrong-exception-type: " + what + ": " + r.what) : ("omitted-tag-not-rejected: " + what); R.violation(clause_of(e) + "|" + what.substr(0, what.find(' ')), e, "mode=omit\nwhat=" + what + "\n"); };
         for (const char* t : NUM_TAGS) { Doc d = base; del_tag(d.num, t); expect_reject(d, std::string(t) + " (numerical_parameters)"); }
